@@ -212,6 +212,7 @@ func specialisedRows(tier string, rng *rand.Rand) ([]*parseRow, map[string]inter
 		}
 		add(fmt.Sprintf("di28#subset%d", v), renderDI(defs, drop, rng.Intn(len(defs))))
 	}
+	rows = append(rows, positionRows(defs)...)
 	// hand-written texts with less usual field shapes (references through generic fields,
 	// self-referencing composite, inline specialised nodes inside fields, nested inline tuples)
 	for _, e := range extraTexts {
@@ -411,4 +412,73 @@ define void @f(i32 %x) !dbg !19 {
 !60 = !GenericDINode(tag: DW_TAG_member, operands: {!{!9}, !"x", !GenericDINode(tag: 3)})
 !61 = distinct !{!61, !"llvm.loop.name"}
 `},
+}
+
+// positionRows: for every specialised node kind, a numbered definition of that
+// kind referenced from every kind of reference position: a tuple field, a named
+// metadata definition, an attachment on a global and on an instruction, a
+// `metadata !N` call argument, a field of another specialised node (the generic
+// operand list of a GenericDINode for every kind, and the typed fields LLVM
+// allows in addition: expr:, count:, dataLocation:, entity:, scope:, ...). The
+// laws of MetadataTrace then require, per kind and position, that the parser
+// hands out MetadataDefs[N], that the printer writes !N, and that the printed
+// text parses back to the same structure.
+func positionRows(defs []diDef) []*parseRow {
+	repr := map[string]int{} // kind -> a numbered definition of that kind
+	var kinds []string
+	for _, d := range defs {
+		k := d.Kind
+		if k == "" {
+			k = "Tuple"
+		}
+		if _, ok := repr[k]; !ok {
+			repr[k] = d.ID
+			kinds = append(kinds, k)
+		}
+	}
+	sort.Strings(kinds)
+	// typed fields of other specialised nodes that may refer to a node of the kind (LLVM 14 accepts these)
+	extra := map[string][]string{
+		"DIExpression":     {`!DIGlobalVariableExpression(var: !13, expr: !%d)`, `!DISubrange(count: !%d)`, `!DICompositeType(tag: DW_TAG_array_type, baseType: !9, dataLocation: !%d)`},
+		"DILocalVariable":  {`!DISubrange(count: !%d)`},
+		"DIGlobalVariable": {`!DISubrange(count: !%d)`},
+		"DIBasicType":      {`!DIDerivedType(tag: DW_TAG_typedef, name: "T", baseType: !%d)`, `!DIImportedEntity(tag: DW_TAG_imported_declaration, scope: !0, entity: !%d)`},
+		"DIFile":           {`!DINamespace(name: "n", scope: !%d)`},
+		"DISubprogram":     {`!DIImportedEntity(tag: DW_TAG_imported_declaration, scope: !0, entity: !%d)`, `!DILexicalBlock(scope: !%d, line: 1)`},
+		"DINamespace":      {`!DIImportedEntity(tag: DW_TAG_imported_module, scope: !0, entity: !%d)`},
+		"DIModule":         {`!DIImportedEntity(tag: DW_TAG_imported_module, scope: !0, entity: !%d)`},
+		"DICompositeType":  {`!DIDerivedType(tag: DW_TAG_member, name: "m", scope: !%d, baseType: !9)`},
+		"DILocation":       {`!DILocation(line: 9, scope: !29, inlinedAt: !%d)`},
+		"DICompileUnit":    {`!DIImportedEntity(tag: DW_TAG_imported_module, scope: !%d, entity: !15)`},
+	}
+	var rows []*parseRow
+	for _, k := range kinds {
+		id := repr[k]
+		var sb strings.Builder
+		fmt.Fprintf(&sb, "@g = global i32 0, !foo !%d\n\n", id)
+		sb.WriteString("declare void @llvm.dbg.value(metadata, metadata, metadata)\n\ndeclare i1 @llvm.type.test(i8*, metadata)\n\n")
+		sb.WriteString("define void @f() !dbg !19 {\n")
+		fmt.Fprintf(&sb, "  %%1 = call i1 @llvm.type.test(i8* null, metadata !%d), !foo !%d\n", id, id)
+		sb.WriteString("  call void @llvm.dbg.value(metadata i32 0, metadata !27, metadata !DIExpression()), !dbg !31\n  ret void, !dbg !31\n}\n\n")
+		fmt.Fprintf(&sb, "!keep = !{!33, !35, !36, !37, !38, !39, !40, !30, !41, !100, !101")
+		for i := range extra[k] {
+			fmt.Fprintf(&sb, ", !%d", 102+i)
+		}
+		sb.WriteString("}\n!llvm.dbg.cu = !{!0}\n!llvm.module.flags = !{!1}\n")
+		fmt.Fprintf(&sb, "!refs = !{!%d, !%d}\n\n", id, id)
+		body := renderDI(defs, nil, id%len(defs))
+		sb.WriteString(body[len(diHeader):])
+		fmt.Fprintf(&sb, "!100 = !{!%d, null, !%d}\n", id, id)
+		fmt.Fprintf(&sb, "!101 = !GenericDINode(tag: DW_TAG_member, operands: {!%d, null})\n", id)
+		for i, f := range extra[k] {
+			fmt.Fprintf(&sb, "!%d = %s\n", 102+i, fmt.Sprintf(f, id))
+		}
+		text := sb.String()
+		w := wantFromText(text)
+		ref := func(n int) op { return op{"k": "ref", "id": n, "same": true} }
+		w["sites"] = map[string]interface{}{"global": ref(id), "func": ref(19), "inst": ref(id), "term": ref(31),
+			"args": []op{ref(id), ref(27), {"k": "tuple", "id": -1, "ops": []op{}}}}
+		rows = append(rows, &parseRow{Src: "text", Want: w, text: text, name: k + "@every-position#"})
+	}
+	return rows
 }
